@@ -197,6 +197,7 @@ func (x *execState) now() time.Duration { return time.Since(x.t0) }
 
 func (x *execState) v(key, format string, a ...any) {
 	x.res.Viol = append(x.res.Viol, [2]string{key, fmt.Sprintf(format, a...)})
+	progressTick.Add(1) // release: the stall monitor reads the result after an atomic load of the tick
 }
 
 func (x *execState) tr(format string, a ...any) {
@@ -210,7 +211,10 @@ func (x *execState) tr(format string, a ...any) {
 	}
 }
 
-func (x *execState) count(name string, d int64) { x.res.Counters[name] += d }
+func (x *execState) count(name string, d int64) {
+	x.res.Counters[name] += d
+	progressTick.Add(1) // see v
+}
 
 // sig records a (frame type, stream state, field class) triple that was sent
 // while the connection was, as far as the script knows, still alive.
@@ -1272,7 +1276,7 @@ func run(sc scenario, res *caseResult) {
 				// with a retry policy the RPC may legitimately sit in its retry
 				// back-off or the server's push-back timer: judged by the deadline
 				// oracles only
-				x.res.Counters["outlive_checks_skipped_retry_backoff"]++
+				x.count("outlive_checks_skipped_retry_backoff", 1)
 				continue
 			}
 			x.v("rpc-outlives-its-connection", "rpc %d (%s, fail-fast, timeout %v) has not returned although the server closed every connection and no new connection can be established (quiescent at %v)", i, r.spec.Kind, r.spec.Deadline, x.now())
